@@ -49,11 +49,13 @@ def run(P, tier="quick"):
                 counters.add(m.kids[0].strip().text())
             if m.k == "BinaryOperator" and m.op == "=" and m.kids[0].strip().k == "ArraySubscriptExpr":
                 counters.add(m.kids[0].strip().kids[0].text())       # visited[id] = true
+        passed_up = {}          # counter parameter -> recursive calls that pass it on incremented
         for c in rec:
             for a in c.args():
                 a = a.strip()
                 if a.k == "BinaryOperator" and a.op == "+" and a.kids[0].strip().k == "DeclRefExpr" and a.kids[0].strip().refkind == "param":
                     counters.add(a.kids[0].strip().text())
+                    passed_up.setdefault(a.kids[0].strip().text(), set()).add(c.id)
         guarded = False
         for s in f.walk():
             if s.k != "IfStmt":
@@ -66,7 +68,18 @@ def run(P, tier="quick"):
                     tx = t.text() if t.k != "ArraySubscriptExpr" else t.kids[0].text()
                     if tx in counters and t.line <= min(c.line for c in rec):
                         guarded = True
-        if guarded:
+        # a depth parameter bounds the recursion only if *every* recursive call passes it on incremented
+        lax = None
+        for nm, ids in passed_up.items():
+            for c in rec:
+                if c.id not in ids:
+                    lax = (nm, c)
+        if guarded and lax is not None:
+            R.violated(Finding("R68", PROPS, f.file, f.name, "recursion-guard",
+                               "%s() bounds its recursion with the depth parameter %s, but the recursive call at line %d passes it on "
+                               "without incrementing it: a cycle through that branch (`&a [*a]`) is never stopped" %
+                               (f.name, lax[0], lax[1].line), lax[1].line))
+        elif guarded:
             R.ok(key, PROPS)
         else:
             R.violated(Finding("R68", PROPS, f.file, f.name, "recursion-guard",
